@@ -54,7 +54,9 @@ int main(int argc, char **argv) {
   if (argc < 2) return 2; std::string cmd = argv[1];
   if (cmd == "gen" && argc >= 5) {   // gen <type> <outprefix> <short:0|1>
     std::string type = argv[2], pre = argv[3]; bool want_short = atoi(argv[4]);
-    if (type.rfind("oct", 0) == 0) { int n = atoi(type.c_str() + 3); unsigned char b[8192]; FILE *f = fopen("/dev/urandom", "rb"); if (fread(b, 1, n, f) != (size_t)n) return 2; fclose(f); b[0] = 0x80 | b[0]; wfile(pre + ".bin", std::string((char *)b, n)); printf("oct\n"); return 0; }
+    if (type.rfind("oct", 0) == 0) { int n = atoi(type.c_str() + 3); unsigned char b[8192]; FILE *f = fopen("/dev/urandom", "rb"); if (fread(b, 1, n, f) != (size_t)n) return 2; fclose(f); b[0] = 0x80 | b[0];
+      size_t col = type.find(':'); if (col != std::string::npos) b[n - 1] = (unsigned char)strtoul(type.c_str() + col + 1, nullptr, 16);   // "oct48:0a": forced last byte
+      wfile(pre + ".bin", std::string((char *)b, n)); printf("oct\n"); return 0; }
     for (int tries = 0; tries < 100000; tries++) {
       KeySpec k = gen_key(type);
       bool sh = false; if (k.kind == K_EC) { int w = (k.bits + 7) / 8; sh = pkey_bn(k.pkey, OSSL_PKEY_PARAM_EC_PUB_X, w)[0] == 0 || pkey_bn(k.pkey, OSSL_PKEY_PARAM_EC_PUB_Y, w)[0] == 0 || pkey_bn(k.pkey, OSSL_PKEY_PARAM_PRIV_KEY, w)[0] == 0; }
